@@ -60,6 +60,29 @@ def scenarios(tier, mode="th"):
     add("xA||xA||xB||xB (cid condition, two identifiers)", "ABunref", {"T1": [XA], "T2": [XA], "T3": [XB], "T4": [XB]}, 2)
     add("Df(p1)||Df(p1)||Df(p2)||Df(p2) (document condition, two identifiers)", "empty",
         {"T1": [DF], "T2": [DF], "T3": [D2F], "T4": [D2F]}, 2)
+    # a READ-ONLY call between two writers of one identifier (pre-emption bound 2): a reader that waits must hand the wake-up
+    # on, a reader that does not wait must not disturb the hand-over between the writers
+    R1 = ("retrieve", "p1")
+    H1 = ("hexdigest", "p1", "sha256")
+    RM = ("retrieve_meta", "p1", None)
+    readers = [("s1A||R1||d1", "empty", S1A, R1, D1), ("s1A||R1||d1", "p1A", S1A, R1, D1), ("d1||R1||d1", "p1A", D1, R1, D1),
+               ("d1||H1||s1A", "p1A", D1, H1, S1A), ("t1A||R1||d1", "Aunref", T1A, R1, D1),
+               ("M1||RM||M2", "meta", M1, RM, M2), ("M1||RM||Da", "meta", M1, RM, DA), ("Df||RM||M1", "meta", DF, RM, M1)]
+    if tier == "thorough":
+        for w1 in (("s1A", S1A), ("d1", D1), ("t1A", T1A)):
+            for w2 in (("s1A", S1A), ("d1", D1), ("t1A", T1A)):
+                for r_ in (("R1", R1), ("H1", H1)):
+                    for st in ("p1A", "Aunref"):
+                        readers.append(("%s||%s||%s" % (w1[0], r_[0], w2[0]), st, w1[1], r_[1], w2[1]))
+        for w1 in (("M1", M1), ("Da", DA), ("Df", DF)):
+            for w2 in (("M2", M2), ("Da", DA), ("Df", DF)):
+                readers.append(("%s||RM||%s" % (w1[0], w2[0]), "meta", w1[1], RM, w2[1]))
+    seen_r = set()
+    for nm, st, a, b, c_ in readers:
+        if (nm, st) in seen_r:
+            continue
+        seen_r.add((nm, st))
+        add("%s from %s (reader between two writers)" % (nm, st), st, {"T1": [a], "T2": [b], "T3": [c_]}, 2)
     if tier == "thorough":
         add("s1A||d1||s2B||d2 (pid condition, two identifiers)", "empty",
             {"T1": [S1A], "T2": [D1], "T3": [("store", "p2", "B", None)], "T4": [D2]}, 2)
